@@ -41,6 +41,55 @@ func isEmptyStringConst(v ssa.Value) bool {
 // alternative of the boolean test v (`v || F == ""`): the If on v (in v's
 // block) has a false successor whose first comparison is `x == ""`.
 func emptinessAlternative(ii core.InlinedInstr, v ssa.Value) (field string, root *ssa.Parameter, ok bool) {
+	if f, rt, ok := emptinessAlternativeForward(ii, v); ok {
+		return f, rt, ok
+	}
+	return emptinessGuard(ii)
+}
+
+// emptinessGuard is the other spelling of the same alternative, `F == "" || v`:
+// the innermost emptiness test the instruction is control dependent on, with
+// the instruction (or the call leading to it, when it sits in a helper) on the
+// NON-empty side of that test.
+func emptinessGuard(ii core.InlinedInstr) (field string, root *ssa.Parameter, ok bool) {
+	chain := ii.CallChain()
+	for _, cond := range ii.ControlConds() {
+		iff := cond.Ins.(*ssa.If)
+		bo, isBo := iff.Cond.(*ssa.BinOp)
+		if !isBo || (bo.Op != token.EQL && bo.Op != token.NEQ) {
+			continue
+		}
+		var other ssa.Value
+		if isEmptyStringConst(bo.Y) {
+			other = bo.X
+		} else if isEmptyStringConst(bo.X) {
+			other = bo.Y
+		}
+		if other == nil {
+			continue
+		}
+		site := ii.Ins.Block()
+		if k := ii.Depth() - cond.Depth(); k > 0 && k-1 < len(chain) {
+			site = chain[k-1].Block()
+		}
+		nonEmpty := iff.Block().Succs[1]
+		if bo.Op == token.NEQ {
+			nonEmpty = iff.Block().Succs[0]
+		}
+		if nonEmpty != site && !nonEmpty.Dominates(site) {
+			return "", nil, false
+		}
+		sl := cond.Slice(other)
+		var rt *ssa.Parameter
+		for p := range sl.Roots {
+			rt = p
+		}
+		return lastComp(cond.PathOf(other)), rt, len(sl.Roots) == 1
+	}
+	return "", nil, false
+}
+
+func emptinessAlternativeForward(ii core.InlinedInstr, v ssa.Value) (field string, root *ssa.Parameter, ok bool) {
 	ins, isIns := v.(ssa.Instruction)
 	if !isIns {
 		return "", nil, false
